@@ -56,7 +56,9 @@ public:
         p.cfg["rate"] = r.pick<int>({ 8000, 22050, 44100 });
         p.cfg["mult"] = r.chance(0.7) ? 2 : (int64_t)r.below(5);
         p.cfg["cont"] = r.chance(0.75) ? 0 : 1; // continuation: 0 tick twin, 1 audio window
-        p.cfg["devices"] = (int64_t)r.chance(0.25);   // tracks bound to MIDI devices (meta FF 09): more than 16 MIDI channels
+        p.cfg["devices"] = (int64_t)r.chance(0.25);
+        p.cfg["loop"] = (int64_t)r.chance(0.25);      // loopStart/loopEnd markers + looping on: targets stay before the loop end (the property's quantifier)
+        p.cfg["longrows"] = (int64_t)r.chance(0.02);  // one track of > 10000 rows (every event at its own tick): a deep seek replays them all   // tracks bound to MIDI devices (meta FF 09): more than 16 MIDI channels
         int nprior = (int)r.weighted({ 4, 3, 2, 1 });
         for(int i = 0; i < nprior; ++i)
         {
@@ -80,7 +82,31 @@ public:
         Rng sr(mix64((uint64_t)p.get("songseed"), 0xC08));
         SongOpts so; so.maxTracks = (int)p.get("maxtracks", 2); so.maxEventsPerTrack = (int)p.get("maxev", 30); so.controllerRich = true; so.maxSeconds = 6.0; so.eotVariants = false;
         Song song = genSong(sr, so);
-        if(p.get("devices", 0)) { addDeviceMetas(song, sr); run.count("multi_device_song"); }
+        if(p.get("longrows", 0))
+        {
+            // 10500..12000 controller events, each with its own tag and tick
+            song = Song(); song.format = 0; song.division = 480; song.tracks.resize(1); STrack &lt = song.tracks[0];
+            static const int ctl[10] = { 7, 10, 11, 1, 71, 74, 91, 93, 5, 65 };
+            int n = (int)sr.range(10500, 12000); uint32_t tk = 0;
+            for(int i = 0; i < n; ++i) { SEvent e; tk += (uint32_t)sr.range(1, 2); e.tick = tk; e.status = 0xB0; e.ch = (uint8_t)(i % 16); e.d1 = (uint8_t)ctl[(i / 16) % 10]; e.d2 = (uint8_t)((i / 160) % 128); e.id = i; lt.ev.push_back(e); }
+            run.count("song_with_more_than_10000_rows");
+        }
+        if(p.get("devices", 0) && !p.get("longrows", 0)) { addDeviceMetas(song, sr); run.count("multi_device_song"); }
+        // loop markers in track 0 (valid: start before end), looping on with 2 passes
+        const bool looping = p.get("loop", 0) != 0 && !p.get("longrows", 0); uint32_t loopStartTick = 0, loopEndTick = 0;
+        if(looping)
+        {
+            uint32_t maxTick = 0; for(size_t tk2 = 0; tk2 < song.tracks.size(); ++tk2) if(!song.tracks[tk2].ev.empty()) maxTick = std::max(maxTick, song.tracks[tk2].ev.back().tick);
+            if(maxTick >= 8)
+            {
+                loopStartTick = (uint32_t)sr.range(0, maxTick / 2); loopEndTick = (uint32_t)sr.range(loopStartTick + 2, maxTick);
+                SEvent a; a.status = 0xFF; a.metaType = 0x06; a.tick = loopStartTick; const char *ls = "loopStart"; a.data.assign(ls, ls + 9); a.id = 200001;
+                SEvent b = a; b.tick = loopEndTick; const char *le = "loopEnd"; b.data.assign(le, le + 7); b.id = 200002;
+                STrack &t0 = song.tracks[0]; size_t pa = 0; while(pa < t0.ev.size() && t0.ev[pa].tick < a.tick) ++pa; t0.ev.insert(t0.ev.begin() + (long)pa, a);
+                size_t pb2 = 0; while(pb2 < t0.ev.size() && t0.ev[pb2].tick <= b.tick) ++pb2; t0.ev.insert(t0.ev.begin() + (long)pb2, b);
+                run.count("song_with_loop_points");
+            }
+        }
         for(size_t tk = 0; tk < song.tracks.size(); ++tk) { STrack &t = song.tracks[tk]; t.hasEOT = true; t.trailing.clear(); t.eotTick = (t.ev.empty() ? 0 : t.ev.back().tick) + (uint32_t)sr.range(0, song.division); }
         RefSong ref; ref.build(song);
         std::vector<uint8_t> smf = writeSmf(song, sr.chance(0.5));
@@ -92,11 +118,13 @@ public:
             opn2_openBankData(dev[k], bank.data(), (long)bank.size());
             opn2_switchEmulator(dev[k], OPNMIDI_VGM_DUMPER);
             opn2_setRawEventHook(dev[k], RawRecorder::cb, &rec[k]);
-            opn2_setLoopEnabled(dev[k], 0);
+            opn2_setLoopEnabled(dev[k], (looping && loopEndTick) ? 1 : 0); if(looping && loopEndTick) opn2_setLoopCount(dev[k], 2);
             if(opn2_openData(dev[k], smf.data(), (unsigned long)smf.size()) != 0) { run.fail("wellformed-smf-rejected", "load", opn2_errorInfo(dev[k])); opn2_close(dev[k]); if(k) opn2_close(dev[0]); tapInstall(false); return; }
             opn2_setTempo(dev[k], mult);
         }
         const double length = ref.length; // includes the 1 s tail
+        // with looping on, every seek target stays before the loop end
+        const double seekLimit = (looping && loopEndTick) ? ref.timing.secondsAt(loopEndTick) - 2e-3 : (length - 1.0);
         std::vector<double> times; for(size_t tk = 0; tk < ref.tracks.size(); ++tk) for(size_t i = 0; i < ref.tracks[tk].size(); ++i) times.push_back(ref.tracks[tk][i].time);
         std::sort(times.begin(), times.end());
         std::vector<double> tempoTimes; for(size_t i = 0; i < ref.tracks[0].size(); ++i) if(ref.tracks[0][i].kind == 0xFF && ref.tracks[0][i].metaType == 0x51) tempoTimes.push_back(ref.tracks[0][i].time);
@@ -109,7 +137,7 @@ public:
             const Op &o = p.ops[i];
             noteOp((int)i, o.kind);
             if(o.kind == Q_TICK) { for(int k = 0; k < 2; ++k) { double left = o.d; while(left > 0) { double s = left > 0.5 ? 0.5 : left; opn2_tickEvents(dev[k], s, g); left -= s; } } run.simSeconds += o.d; if(opn2_atEnd(dev[0])) playedToEnd = true; cls |= 1; }
-            else if(o.kind == Q_SEEK) { double t = between(o.d * (length - 1.0)); for(int k = 0; k < 2; ++k) opn2_positionSeek(dev[k], t); if(lastSeek >= 0 && t < lastSeek) backward = true; lastSeek = t; ++seeks; cls |= 2; }
+            else if(o.kind == Q_SEEK) { double t = between((looping && loopEndTick) ? std::min(o.d, 0.97) * seekLimit : o.d * (length - 1.0)); if(looping && loopEndTick && t >= seekLimit) t = seekLimit * 0.5; for(int k = 0; k < 2; ++k) opn2_positionSeek(dev[k], t); if(lastSeek >= 0 && t < lastSeek) backward = true; lastSeek = t; ++seeks; cls |= 2; }
             else if(o.kind == Q_TARGET) { tclass = (int)o.a[0]; target = o.d; ++i; break; }
         }
         if(run.failed() || tclass < 0) { for(int k = 0; k < 2; ++k) opn2_close(dev[k]); tapInstall(false); return; }
@@ -119,7 +147,7 @@ public:
         if(tclass == 1) { t = 0.0; run.count("seek_zero"); }
         else if(tclass == 2) { t = length + 0.5 + target; run.count("seek_beyond_end"); }
         else if(tclass == 3) { t = -0.001 - target; run.count("seek_negative"); }
-        else t = between(target * (length - 1.0));
+        else { t = between(target * seekLimit); if(looping && loopEndTick && t >= seekLimit) { run.count("target_not_before_loop_end"); for(int k = 0; k < 2; ++k) opn2_close(dev[k]); tapInstall(false); return; } }
         // past the last delivery only the one-second tail remains: whether that still counts as "inside the song"
         // is not stated by the property (the sequencer treats it as the end and rewinds) -> not judged
         if(tclass == 0 && t >= (length - 1.0) - 1e-3) { run.count("target_in_tail_not_judged"); for(int k = 0; k < 2; ++k) { opn2_positionSeek(dev[k], t); opn2_close(dev[k]); } tapInstall(false); return; }
@@ -184,7 +212,7 @@ public:
         if(!run.failed() && tclass == 0)
         {
             OPN2_MIDIPlayer *fresh = opn2_init(rate);
-            opn2_openBankData(fresh, bank.data(), (long)bank.size()); opn2_switchEmulator(fresh, OPNMIDI_VGM_DUMPER); opn2_setLoopEnabled(fresh, 0);
+            opn2_openBankData(fresh, bank.data(), (long)bank.size()); opn2_switchEmulator(fresh, OPNMIDI_VGM_DUMPER); opn2_setLoopEnabled(fresh, (looping && loopEndTick) ? 1 : 0); if(looping && loopEndTick) opn2_setLoopCount(fresh, 2);
             if(opn2_openData(fresh, smf.data(), (unsigned long)smf.size()) == 0)
             {
                 opn2_setTempo(fresh, mult);
